@@ -151,7 +151,7 @@ pub fn nav(out: &mut Out, tier: &Tier, rng: &mut Rng) {
             }
         }
     }
-    let extra = if tier.thorough { 60000 } else { 3000 };
+    let extra = if tier.thorough { 60000 } else { 12000 };
     for _ in 0..extra {
         let text = random_text(rng, ALPHABET, 14);
         let le = *rng.pick(LINE_ENDINGS);
@@ -215,7 +215,7 @@ pub fn lines(out: &mut Out, tier: &Tier, rng: &mut Rng) {
             }
         }
     }
-    let extra = if tier.thorough { 40000 } else { 2000 };
+    let extra = if tier.thorough { 40000 } else { 8000 };
     for _ in 0..extra {
         let text = random_text(rng, ALPHABET, 16);
         let le = *rng.pick(LINE_ENDINGS);
